@@ -125,8 +125,30 @@ def main(argv):
     nproc = min(16, max(1, len(goals)))
     os.environ['LPV_JOBS'] = str(max(2, min(8, 32 // nproc)))
     results = par.pmap(run_goal, [(g, budget) for g in goals], nproc)
+    if tier == 'thorough' and not os.environ.get('LPV_REPO'):
+        meta['seeded_self_test'] = seeded_self_test(pid, seed)
+        if pid == 'C20':
+            from . import units
+            meta['a7_validation'] = units.validate_a7()
     from . import report
     return report.finish(pid, tier, seed, goals, meta, results, ok_canary, canary_info, t0)
+
+
+def seeded_self_test(pid, seed):
+    """thorough tier: apply every committed seeded change of this property to a scratch copy and run the quick check on it;
+    reports which obligations catch which change (does not affect the exit code)"""
+    import subprocess, random
+    root = os.path.join(ROOT, 'seeded')
+    out = []
+    ids = sorted(d for d in os.listdir(root) if os.path.exists(os.path.join(root, d, 'meta.json'))) if os.path.isdir(root) else []
+    ids = [d for d in ids if json.load(open(os.path.join(root, d, 'meta.json'))).get('property') == pid]
+    random.Random(seed).shuffle(ids)
+    for d in ids:
+        r = subprocess.run([os.path.join(ROOT, 'tools', 'seedtest.sh'), pid, os.path.join(root, d, 'patch.diff')], capture_output=True, text=True)
+        viol = re.findall(r'VIOLATION property=\S+ replay=\S*/replays/\S+/(\S+?)\.json', r.stdout)
+        und = [l[:160] for l in r.stdout.split('\n') if l.startswith('UNDECIDED')]
+        out.append({'seeded_change': d, 'verdict': 'detected' if viol else ('undecided' if und else 'missed'), 'failed_obligations': viol[:8], 'undecided': und[:3]})
+    return out
 
 
 if __name__ == '__main__':
